@@ -230,7 +230,7 @@ def run(tier, verif, env):
     for k in known_hit:
         print("KNOWN-FINDING: property=C14 %s" % k)
     print("c14 tier=%s configurations=%d lines=%d strict_lines_checked=%d violations=%d wall=%.1fs" % (tier, len(results), lines_total, strict_checked, len(violations), wall))
-    if strict_cell.get("parser") == "same":
+    if strict_cell.get("parser") == "same" and not violations:
         log("strict-parser transcript is identical to default: the tagged raw-overflow texts are not exercising the strict parser (machinery error)")
         return 2
     if new_v:
